@@ -21,6 +21,9 @@ pub struct Bindings {
     s_r2s: HashMap<(usize, u8, u32), u32>,
     s_s2r: HashMap<u32, (usize, u32)>,
     s_hist: HashMap<u32, (usize, u32)>,
+    /// synthetic cookies whose real counterpart has not been seen yet: every message that
+    /// announced them went to a connection that was ending itself (nothing is demanded there)
+    pending: Vec<(CookieKind, Uuid)>,
 }
 
 impl Bindings {
@@ -78,6 +81,8 @@ pub struct RawConn {
     pub dropped: bool,
     /// how the harness ended it (for the expected `Connection::run` result)
     pub ended_by: Option<&'static str>,
+    /// writes of the broker's connection task towards this client fail (half-open transport)
+    pub mute: bool,
 }
 
 #[derive(Clone)]
@@ -208,6 +213,7 @@ impl Rig {
                 sent_shutdown: false,
                 dropped: false,
                 ended_by: None,
+                mute: false,
             });
             for c in &mut self.cands {
                 let mut next = c.model.step(&Input::Connect(v));
@@ -274,6 +280,14 @@ impl Rig {
                     None => Err("broker queue full while requesting shutdown".into()),
                 }
             }
+            Input::WriteFault(c) => {
+                let side = self.conns[*c].end.side;
+                self.conns[*c].end.sh.borrow_mut().ends[1 - side].fault = Some((0, super::pipe::FaultKind::SendOnly));
+                self.conns[*c].mute = true;
+                self.conns[*c].ended_by.get_or_insert("write-fault");
+                Ok(input.clone())
+            }
+            Input::EndOfBurst => Ok(input.clone()),
             Input::Connect(_) => Err("use connect()".into()),
         }
     }
@@ -359,6 +373,12 @@ impl Rig {
                 _ => {}
             }
         }
+        // nothing reaches a mute connection, nothing is demanded there
+        for (i, c) in self.conns.iter().enumerate() {
+            if c.mute {
+                lenient.insert(i);
+            }
+        }
         struct St {
             model: Model,
             bind: Bindings,
@@ -368,8 +388,11 @@ impl Rig {
         }
         // a dropped Connection future is gone from the moment it is dropped, i.e. before the
         // broker dequeues anything of this burst (what the connection queued earlier stays queued)
-        let mut model_inputs: Vec<Input> = real_inputs.iter().filter(|i| matches!(i, Input::DropFuture(_))).cloned().collect();
-        model_inputs.extend(real_inputs.iter().filter(|i| !matches!(i, Input::DropFuture(_))).cloned());
+        // (the same holds for a transport that turns half-open: nothing of this burst has been
+        // written yet)
+        let mut model_inputs: Vec<Input> = real_inputs.iter().filter(|i| matches!(i, Input::DropFuture(_) | Input::WriteFault(_))).cloned().collect();
+        model_inputs.extend(real_inputs.iter().filter(|i| !matches!(i, Input::DropFuture(_) | Input::WriteFault(_))).cloned());
+        model_inputs.push(Input::EndOfBurst);
         let n = self.conns.len();
         for c in &mut self.cands {
             c.model.unobservable = lenient.clone();
@@ -431,7 +454,7 @@ impl Rig {
             }
             if err.is_none() {
                 for c in 0..n {
-                    let exp_closed = st.model.conns[c].state != ConnState::Alive;
+                    let exp_closed = !matches!(st.model.conns[c].state, ConnState::Alive | ConnState::Mute);
                     let obs_closed = self.conns[c].end.peer_closed() || self.conns[c].dropped;
                     if exp_closed != obs_closed {
                         let k = match real_inputs.last() {
@@ -561,6 +584,8 @@ pub fn describe_input(i: &Input) -> String {
         Input::HandleShutdown(c) => format!("#{} shutdown_connection via handle", c),
         Input::DropFuture(c) => format!("#{} Connection future dropped", c),
         Input::BrokerShutdown => "broker shutdown".into(),
+        Input::WriteFault(c) => format!("#{} transport half-open: writes towards the client fail from now on", c),
+        Input::EndOfBurst => "end of burst".into(),
         Input::Connect(v) => format!("connect 1.{}", v),
     }
 }
@@ -581,7 +606,9 @@ fn match_step(
     lenient: &BTreeSet<usize>,
 ) -> Result<(), Mismatch> {
     let n = obs.len();
+    // this step's fresh cookies first, then older ones that were never seen
     let mut fresh: Vec<(CookieKind, Uuid, bool)> = out.fresh.iter().map(|(k, u)| (*k, *u, false)).collect();
+    fresh.extend(bind.pending.iter().map(|(k, u)| (*k, *u, false)));
     let mut fresh_serials: Vec<(usize, u32, bool)> = out.fresh_serials.iter().map(|(c, s)| (*c, *s, false)).collect();
     let mut order: Vec<usize> = Vec::new();
     if let Some(f) = first_conn {
@@ -628,52 +655,69 @@ fn match_step(
                     break;
                 }
             }
-            // translate into the synthetic space, tentatively binding fresh ids
-            let mut msg = obs[c][cur[c]].clone();
+            let mut flex = false;
+            // translate into the synthetic space, tentatively binding fresh ids; with several
+            // unseen cookies of one kind every pairing of the first unknown cookie is tried
             let mut tent_c: Vec<(usize, Uuid)> = Vec::new();
-            visit_cookies(&mut msg, &mut |k, u| {
-                if let Some(s) = bind.c_r2s.get(u) {
-                    *u = *s;
-                } else if let Some((i, _)) = tent_c.iter().find(|(_, r)| r == u) {
-                    *u = fresh[*i].1;
-                } else if !model::is_syn(*u) {
-                    if let Some(i) = fresh.iter().position(|(fk, _, b)| *fk == k && !*b) {
-                        if !tent_c.iter().any(|(j, _)| *j == i) {
+            let mut tent_s: Option<(usize, u8, u32)> = None;
+            let mut hit: Option<usize> = None;
+            let rotations = 1 + fresh.iter().filter(|f| !f.2).count().min(8);
+            'rot: for rot in 0..rotations {
+                let mut msg = obs[c][cur[c]].clone();
+                tent_c.clear();
+                let mut skip = rot;
+                visit_cookies(&mut msg, &mut |k, u| {
+                    if let Some(s) = bind.c_r2s.get(u) {
+                        *u = *s;
+                    } else if let Some((i, _)) = tent_c.iter().find(|(_, r)| r == u) {
+                        *u = fresh[*i].1;
+                    } else if !model::is_syn(*u) {
+                        let avail: Vec<usize> = (0..fresh.len()).filter(|&i| fresh[i].0 == k && !fresh[i].2 && !tent_c.iter().any(|(j, _)| *j == i)).collect();
+                        if !avail.is_empty() {
+                            let i = avail[skip.min(avail.len() - 1)];
+                            skip = 0;
                             tent_c.push((i, *u));
                             *u = fresh[i].1;
                         }
                     }
-                }
-            });
-            // a serial chosen by the broker: try every synthetic serial handed out to this
-            // connection in this step (several calls / queries may start in one step)
-            let mut tent_s: Option<(usize, u8, u32)> = None;
-            let mut hit: Option<usize> = None;
-            let mut serial_cands: Vec<Option<usize>> = vec![None];
-            let mut space_real: Option<(u8, u32)> = None;
-            if let Some((space, s)) = broker_serial_out(&mut msg) {
-                if let Some(syn) = bind.s_r2s.get(&(c, space, *s)) {
-                    *s = *syn;
-                } else {
-                    space_real = Some((space, *s));
-                    serial_cands = (0..fresh_serials.len()).filter(|&i| fresh_serials[i].0 == c && !fresh_serials[i].2).map(Some).collect();
-                    if serial_cands.is_empty() {
-                        serial_cands = vec![None];
+                });
+                // a serial chosen by the broker: try every synthetic serial handed out to this
+                // connection in this step (several calls / queries may start in one step)
+                tent_s = None;
+                let mut serial_cands: Vec<Option<usize>> = vec![None];
+                let mut space_real: Option<(u8, u32)> = None;
+                if let Some((space, s)) = broker_serial_out(&mut msg) {
+                    if let Some(syn) = bind.s_r2s.get(&(c, space, *s)) {
+                        *s = *syn;
+                    } else {
+                        space_real = Some((space, *s));
+                        serial_cands = (0..fresh_serials.len()).filter(|&i| fresh_serials[i].0 == c && !fresh_serials[i].2).map(Some).collect();
+                        if serial_cands.is_empty() {
+                            serial_cands = vec![None];
+                        }
                     }
                 }
-            }
-            for cand in serial_cands {
-                if let (Some(i), Some((space, real))) = (cand, space_real) {
-                    if let Some((_, s)) = broker_serial_out(&mut msg) {
-                        *s = fresh_serials[i].1;
+                for cand in serial_cands {
+                    if let (Some(i), Some((space, real))) = (cand, space_real) {
+                        if let Some((_, s)) = broker_serial_out(&mut msg) {
+                            *s = fresh_serials[i].1;
+                        }
+                        tent_s = Some((i, space, real));
                     }
-                    tent_s = Some((i, space, real));
+                    hit = (0..exps.len()).find(|&i| !matched[i] && exps[i].alts.iter().any(|a| msg_eq(a, &msg)));
+                    if hit.is_some() {
+                        break 'rot;
+                    }
+                    tent_s = None;
                 }
-                hit = (0..exps.len()).find(|&i| !matched[i] && exps[i].alts.iter().any(|a| msg_eq(a, &msg)));
-                if hit.is_some() {
+                if tent_c.is_empty() {
+                    // nothing to rotate
+                    if model.flex_accept(c, &msg) {
+                        hit = None;
+                        flex = true;
+                    }
                     break;
                 }
-                tent_s = None;
             }
             if let Some(i) = hit {
                 matched[i] = true;
@@ -690,7 +734,7 @@ fn match_step(
                     bind.s_hist.insert(syn, (c, real));
                 }
                 cur[c] += 1;
-            } else if tent_c.is_empty() && tent_s.is_none() && model.flex_accept(c, &msg) {
+            } else if flex {
                 cur[c] += 1;
             } else {
                 break;
@@ -709,6 +753,12 @@ fn match_step(
                 });
             }
         }
+    }
+    // cookies nobody has seen yet stay bindable in later steps
+    bind.pending = fresh.iter().filter(|f| !f.2).map(|f| (f.0, f.1)).collect();
+    if bind.pending.len() > 48 {
+        let cut = bind.pending.len() - 48;
+        bind.pending.drain(..cut);
     }
     for (c, s) in &out.released_serials {
         if let Some((bc, real)) = bind.s_s2r.remove(s) {
